@@ -243,13 +243,15 @@ def outcome_match(impl, model):
         return True
     if model.startswith('err:*') and impl.startswith('err:'):
         return True
+    if model.startswith('maybe:'):   # specification column: either rejected or exactly this value
+        return impl.startswith('err:') or impl == model[len('maybe:'):]
     if model.endswith(':*') and model.startswith('v:') and impl.startswith(model[:-1]) and not impl.endswith(':-'):
         return True
     return False
 
 
 def nontrivial(case, impl):
-    if impl.startswith('ok:') or impl.startswith('v:true') or impl == 'panic':
+    if impl.startswith('ok:') or impl.startswith('cfg:') or impl.startswith('v:true') or impl == 'panic':
         return True
     if impl.startswith('v:false:'):
         try:
@@ -355,6 +357,7 @@ PROPS = {
     'C08': {'streams': [('c08', 300, 10000)]},
     'C13': {'streams': [('c13', 900, 30000)]},
     'C14': {'streams': [('c14', 1500, 50000)]},
+    'C15': {'streams': [('c15', 1500, 60000)]},
     'C17': {'streams': [('c17', 2500, 100000)]},
 }
 
